@@ -2,6 +2,7 @@
 from __future__ import annotations
 
 import asyncio
+import json
 from typing import Any, Dict, List, Optional, Tuple
 
 from hypothesis import strategies as st
@@ -226,12 +227,106 @@ def check(case: Dict[str, Any]) -> Outcome:
         return check_serialiser(case)
     if "seq" in case:
         return check_sequence(case)
+    if "builder" in case:
+        return check_builder(case)
     out = Outcome()
     target, w, backend = case["target"], case["data"], case.get("backend", "pydantic")
     wp, wf = workers()
     wk = wp if backend == "pydantic" else wf
-    r = wk.request({"op": "validate", "cases": [(target, "validate", w)]})[0]
-    return oracle_a(out, target, w, backend, r)
+    r = wk.request({"op": "validate", "cases": [(target, case.get("how", "validate"), w)]})[0]
+    oracle_a(out, target, w, backend, r)
+    if case.get("how") == "validate_shared":
+        out.classes = tuple(out.classes) + ("equal-containers-shared-by-reference",)
+    return out
+
+
+def builders() -> Dict[str, Any]:
+    """every public create_* function of the protocol packages (discovered by walking them)"""
+    import importlib
+    import inspect
+    import pkgutil
+
+    import chuk_mcp.protocol as root
+
+    found: Dict[str, Any] = {}
+    for mi in pkgutil.walk_packages(root.__path__, root.__name__ + "."):
+        try:
+            m = importlib.import_module(mi.name)
+        except Exception:
+            continue
+        for name, fn in vars(m).items():
+            if name.startswith("create_") and inspect.isfunction(fn) and fn.__module__ == m.__name__:
+                found[f"{m.__name__}:{name}"] = fn
+    return found
+
+
+def _builder_kwargs(fn: Any) -> Optional[Dict[str, Any]]:
+    """a JSON-able value for EVERY parameter (optional ones too), chosen by annotation and name"""
+    import inspect
+    import typing
+
+    from ..helpers import synth_value
+
+    try:
+        hints = typing.get_type_hints(fn)
+    except Exception:
+        hints = {}
+    kw: Dict[str, Any] = {}
+    for pn, p_ in inspect.signature(fn).parameters.items():
+        if p_.kind in (p_.VAR_POSITIONAL, p_.VAR_KEYWORD):
+            continue
+        ann = hints.get(pn, p_.annotation)
+        try:
+            v = synth_value(ann, pn)
+        except TypeError:
+            if p_.default is not inspect.Parameter.empty:
+                continue
+            return None
+        if v == {} or (isinstance(v, str) and v == "x" and ("meta" in pn or "schema" in pn or "data" in pn)):
+            v = {"k": {"n": [1, None]}, "progressToken": "tok-1"} if "meta" in pn else {"type": "object", "properties": {"a": {"type": "string"}}}
+        if v == []:
+            v = [{"type": "text", "text": "t"}] if "content" in pn else []
+        kw[pn] = v
+    return kw
+
+
+def check_builder(case: Dict[str, Any]) -> Outcome:
+    """a create_* builder called with every parameter populated: what it returns, serialised for the wire, must not
+    contain Python attribute names where wire names belong, and `_meta` given to it must leave as `_meta`"""
+    out = Outcome(nontrivial=True)
+    name, backend = case["builder"], case.get("backend", "pydantic")
+    out.classes = ("builder", f"backend:{backend}")
+    fn = builders().get(name)
+    if fn is None:
+        out.classes = out.classes + ("builder-not-present",)
+        out.nontrivial = False
+        return out
+    kw = _builder_kwargs(fn)
+    if kw is None:
+        out.classes = out.classes + ("builder-arguments-not-synthesised",)
+        out.nontrivial = False
+        return out
+    wp, wf = workers()
+    r = (wp if backend == "pydantic" else wf).request({"op": "build", "calls": [(name, kw)]})[0]
+    if r[0] != "ok":
+        out.classes = out.classes + ("builder-rejected-synthesised-arguments",)
+        out.nontrivial = False
+        return out
+    res = r[1]
+    short = name.split(":")[-1]
+    for key in ("wire", "to_dict"):
+        w = res.get(key)
+        if w is None or (isinstance(w, (list, tuple)) and len(w) == 2 and w[0] == "$error"):
+            continue
+        leak = leaked_attribute_names(w)
+        if leak:
+            out.fail(f"attribute-name-instead-of-wire-name:builder:{short}", f"{short}(**{kw!r}) -> {key} has {leak}: {json.dumps(w, default=str)[:300]}")
+            break
+        for pn, v in kw.items():
+            if "meta" in pn and isinstance(v, dict) and isinstance(w, dict) and w.get("_meta") != v:
+                out.fail(f"meta-argument-not-on-the-wire-as-_meta:builder:{short}", f"{short}({pn}={v!r}) -> {json.dumps(w, default=str)[:300]}")
+                break
+    return out
 
 
 def oracle_a(out: Outcome, target: str, w: Any, backend: str, r: Any) -> Outcome:
@@ -594,13 +689,49 @@ def job_open_enums(col: Collector, seed: int, tier: str) -> None:
     col.exhaustive_parts.append(f"open enumerations: every known word and 4 other spellings of it for every such field ({n} objects)")
 
 
-JOBS = {"dump_order": job_dump_order, "models": job_models, "serialisers": job_serialisers, "sequences": job_sequences, "open_enums": job_open_enums}
+def job_shared(col: Collector, seed: int, tier: str, shard: int, nshards: int) -> None:
+    """objects built in Python reuse fragments: for every model class an instance with every optional member populated by
+    fixed values (so that equal containers occur several times), validated from an input in which equal containers are
+    ONE shared object, both backends; sharing is not a cycle and nothing may go missing"""
+    from ..modelgen import deterministic_value
+
+    k = 0
+    for t, cls in sorted(models().items()):
+        k += 1
+        if k % nshards != shard:
+            continue
+        try:
+            w = {f["wire"]: deterministic_value(f["annotation"], cls, f["name"], 2) for f in fields_of(cls)}
+        except TypeError:
+            continue
+        if cls.__name__ == "JSONRPCMessage":
+            continue
+        w["x-vendor"] = {"k": [1, None]}
+        w["x-vendor-2"] = {"k": [1, None]}
+        for backend in ("pydantic", "fallback"):
+            case = {"target": t, "data": w, "backend": backend, "how": "validate_shared"}
+            col.record(case, check(case))
+    if shard == 0:
+        col.exhaustive_parts.append("every model class fully populated with fixed values, equal containers shared by reference, both backends")
+
+
+def job_builders(col: Collector, seed: int, tier: str) -> None:
+    names = sorted(builders())
+    for name in names:
+        for backend in ("pydantic", "fallback"):
+            case = {"builder": name, "backend": backend}
+            col.record(case, check(case))
+    col.extra["builders"] = [n.split(":")[-1] for n in names]
+    col.exhaustive_parts.append(f"all {len(names)} public create_* builders of chuk_mcp.protocol with every parameter populated, both backends")
+
+
+JOBS = {"shared": job_shared, "builders": job_builders, "dump_order": job_dump_order, "models": job_models, "serialisers": job_serialisers, "sequences": job_sequences, "open_enums": job_open_enums}
 
 
 def jobs(tier: str):
     if tier == "quick":
-        return [("models", {"shard": s, "nshards": 8, "n": 60}) for s in range(8)] + [("serialisers", {"shard": s, "nshards": 4, "n": 120}) for s in range(4)] + [("sequences", {"shard": s, "n": 10}) for s in range(4)] + [("open_enums", {})] + [("dump_order", {"shard": s, "nshards": 2, "n": 2}) for s in range(2)]
-    return [("models", {"shard": s, "nshards": 8, "n": 1500}) for s in range(8)] + [("serialisers", {"shard": s, "nshards": 4, "n": 2500}) for s in range(4)] + [("sequences", {"shard": s, "n": 300}) for s in range(4)] + [("open_enums", {})] + [("dump_order", {"shard": s, "nshards": 4, "n": 25}) for s in range(4)]
+        return [("models", {"shard": s, "nshards": 8, "n": 60}) for s in range(8)] + [("serialisers", {"shard": s, "nshards": 4, "n": 120}) for s in range(4)] + [("sequences", {"shard": s, "n": 10}) for s in range(4)] + [("open_enums", {})] + [("dump_order", {"shard": s, "nshards": 2, "n": 2}) for s in range(2)] + [("shared", {"shard": s, "nshards": 2}) for s in range(2)] + [("builders", {})]
+    return [("models", {"shard": s, "nshards": 8, "n": 1500}) for s in range(8)] + [("serialisers", {"shard": s, "nshards": 4, "n": 2500}) for s in range(4)] + [("sequences", {"shard": s, "n": 300}) for s in range(4)] + [("open_enums", {})] + [("dump_order", {"shard": s, "nshards": 4, "n": 25}) for s in range(4)] + [("shared", {"shard": s, "nshards": 2}) for s in range(2)] + [("builders", {})]
 
 
 def shrink(signature: str, seed: int):
